@@ -311,7 +311,7 @@ FamCapacity ==
 FamHedge ==
   LET Base == { [Member(n, t, m, m, "mid", "max", 1, "none", "lt", m, sd, 0, rng) EXCEPT !.bseed = 1] :
                   n \in {2, 8}, t \in (IF Quick THEN {1, 2} ELSE {1, 2, 3, 6}), m \in {1, 2}, sd \in {0, 1, 5},      \* (seed class 5: the zero scalar)
-                  rng \in {"zero", "const", "p2", "ctr", "chacha"} }
+                  rng \in {"zero", "const", "p2", "ctr", "chacha", "fail"} }     \* ("fail": try_fill_bytes reports an error and leaves zeros)
       \* the second run: identical, or one input changed (and the verifier-side statement follows it)
       Vary(a) == {a}
             \cup { [a EXCEPT !.label = 1, !.v.label = 1] }
